@@ -296,7 +296,7 @@ class _Stop(Exception):
     pass
 
 
-def case_windows(rec, nband, explicit):
+def case_windows(rec, nband, explicit, as_dict=False):
     """the masks wannierise() hands to the k-point objects, from symbolic energies and windows"""
     import wannierberri.wannierisation.wannierise as W
     import wannierberri.symmetry.sawf as SAWF
@@ -340,9 +340,10 @@ def case_windows(rec, nband, explicit):
     def body(rec):
         got.clear()
         wd.eig.data = {0: E.copy()}
-        rec.witness = lambda env: dict(test="windows", E=[env.val(e) for e in E], win=[env.val(x) for x in (fmin, fmax, omin, omax)], explicit=explicit)
+        rec.witness = lambda env: dict(test="windows", E=[env.val(e) for e in E], win=[env.val(x) for x in (fmin, fmax, omin, omax)], explicit=explicit, as_dict=as_dict)
         try:
-            W.wannierise(wd, froz_min=fmin, froz_max=fmax, outer_min=omin, outer_max=omax, frozen_states=list(explicit), parallel=False, sitesym=False)
+            W.wannierise(wd, froz_min=fmin, froz_max=fmax, outer_min=omin, outer_max=omax, frozen_states=({0: list(explicit)} if as_dict else list(explicit)),
+                         parallel=False, sitesym=False)
         except _Stop:
             pass
         frozen, free = got["frozen"], got["free"]
@@ -398,6 +399,7 @@ def cases(tier, seed):
         out.append(Case(f"windows nband={nband}", case_windows, dict(nband=nband, explicit=()), timeout=1100))
         if not q or nband == 3:
             out.append(Case(f"windows nband={nband} frozen_states=[{nband - 2}]", case_windows, dict(nband=nband, explicit=(nband - 2,)), timeout=1100))
+            out.append(Case(f"windows nband={nband} frozen_states={{0: [{nband - 1}]}}", case_windows, dict(nband=nband, explicit=(nband - 1,), as_dict=True), timeout=1100))
     return out
 
 
@@ -524,7 +526,8 @@ def _replay_windows(w):
     import io, contextlib
     try:
         with contextlib.redirect_stdout(io.StringIO()):
-            W.wannierise(wd, froz_min=fmin, froz_max=fmax, outer_min=omin, outer_max=omax, frozen_states=explicit, parallel=False, sitesym=False)
+            W.wannierise(wd, froz_min=fmin, froz_max=fmax, outer_min=omin, outer_max=omax, frozen_states=({0: explicit} if w.get("as_dict") else explicit),
+                            parallel=False, sitesym=False)
     except _Stop:
         pass
     except Exception as e:
